@@ -289,9 +289,72 @@ fn gen_file(rng: &mut Rng, spaces: bool) -> Vec<u8> {
     f.into_bytes()
 }
 
+
+fn coq_str(s: &str) -> String {
+    format!("\"{}\"%string", s.replace('"', "\"\""))
+}
+
+fn coq_opt_str(s: Option<&str>) -> String {
+    match s {
+        None => "None".to_string(),
+        Some(x) => format!("(Some {})", coq_str(x)),
+    }
+}
+
+/// Coq terms for one Python session: `check_fields` for create(), `check_projection` for every tokenize / split call that
+/// succeeded on both sides.  The model gets the morphemes as the LIBRARY reports them under the same field subset (raw
+/// surface, POS id, normalised / reading / dictionary form) and must reproduce the strings the interpreter returned.
+fn model_terms(sink: &mut Sink, dict: &JapaneseDictionary, s: &Value, mine: &[Value], theirs: &[Value]) {
+    let fields: Option<Vec<String>> = s["fields"].as_array().map(|a| a.iter().map(|x| x.as_str().unwrap().to_string()).collect());
+    let proj: Option<&str> = s["projection"].as_str();
+    let required = match proj {
+        Some(p) => SurfaceProjection::try_from(p).map(|p| p.required_subset()).unwrap_or(InfoSubset::empty()),
+        None => InfoSubset::empty(),
+    };
+    let names = match &fields {
+        None => "None".to_string(),
+        Some(fs) => format!("(Some {})", clist(fs.iter().map(|f| coq_str(f)))),
+    };
+    let subset = (subset_of(&fields) | required).bits();
+    sink.tag("py-model:create");
+    sink.case(
+        format!("check_fields {} {} {}", names, coq_opt_str(proj), cn(subset)),
+        json!({"kind": "py-session", "session": s, "check": "fields"}),
+        fields.is_some() || proj.is_some(),
+    );
+    let pl = clist(dict.grammar().pos_list.iter().map(|p| clist(p.iter().map(|c| ctext(c)))));
+    for (k, (a, b)) in mine.iter().zip(theirs.iter()).enumerate() {
+        let op = s["ops"][k]["op"].as_str().unwrap_or("");
+        if op == "lookup" || a["ok"] != json!(true) || b["ok"] != json!(true) {
+            continue;
+        }
+        let (am, bm) = match (a["morphemes"].as_array(), b["morphemes"].as_array()) {
+            (Some(x), Some(y)) if x.len() == y.len() => (x, y),
+            _ => continue, // reported by the field-by-field comparison
+        };
+        let ms = clist(am.iter().map(|m| {
+            format!(
+                "mkPym {} {} {} {} {}",
+                ctext(m["raw_surface"].as_str().unwrap_or("")),
+                cn(m["pos_id"].as_u64().unwrap_or(0)),
+                ctext(m["normalized_form"].as_str().unwrap_or("")),
+                ctext(m["reading_form"].as_str().unwrap_or("")),
+                ctext(m["dictionary_form"].as_str().unwrap_or(""))
+            )
+        }));
+        let py = clist(bm.iter().map(|m| ctext(m["surface"].as_str().unwrap_or(""))));
+        sink.tag(&format!("py-model:projection:{}", proj.unwrap_or("none")));
+        sink.case(
+            format!("check_projection {} {} {} {}", coq_opt_str(proj), pl, ms, py),
+            json!({"kind": "py-session", "session": s, "check": "projection", "op": k}),
+            !am.is_empty() && proj.is_some(),
+        );
+    }
+}
+
 pub fn run(args: &Args) {
-    let mut sink = Sink::new("C19", &args.out, &["Model.Cli", "Model.CliColumns"], args.seed, &args.tier);
-    sink.rule("python: sessions {create(mode, fields subset, projection); 1..6 ops of tokenize(text, per-call mode, out= reuse) / Morpheme.split(mode, out=, add_single) / Dictionary.lookup} run in the sudachipy module built from the working tree and mirrored on the Rust library, compared field by field (surface, raw_surface, begin/end with text[begin:end] == raw_surface, POS, forms, ids, split results); CLI: multi-line files (blank lines, CRLF, no final newline) x modes x {-w, -a, default} x --split-sentences {yes,no,only}, stdout compared byte for byte with the library's morphemes in the documented format; Coq: the line-handling and surface-only-output models against what the tool demonstrably analysed/printed; non-trivial = at least one non-empty text; distinct by content");
+    let mut sink = Sink::new("C19", &args.out, &["Model.Cli", "Model.CliColumns", "Model.PyProjection"], args.seed, &args.tier);
+    sink.rule("python: sessions {create(mode, fields subset, projection); 1..6 ops of tokenize(text, per-call mode, out= reuse) / Morpheme.split(mode, out=, add_single) / Dictionary.lookup} run in the sudachipy module built from the working tree and mirrored on the Rust library, compared field by field (surface, raw_surface, begin/end with text[begin:end] == raw_surface, POS, forms, ids, split results); CLI: multi-line files (blank lines, CRLF, no final newline) x modes x {-w, -a, default} x --split-sentences {yes,no,only}, stdout compared byte for byte with the library's morphemes in the documented format; Coq: Model/PyProjection.v (the field-name parser and create()'s subset; for every tokenize / split call the model's projection of the library's morphemes must equal what Morpheme.surface() returned in the interpreter); the line-handling and surface-only-output models against what the tool demonstrably analysed/printed; non-trivial = at least one non-empty text; distinct by content");
     let mut rng = Rng::new(args.seed);
     let res = format!("{}/python/tests/resources", repo());
     let cfg_path = format!("{}/sudachi.json", res);
@@ -421,6 +484,9 @@ pub fn run(args: &Args) {
                     if mine.len() != theirs.len() {
                         sink.fail(id, "python driver returned a different number of observations", "");
                     }
+                    // the MODEL of the binding's glue (Model/PyProjection.v), not the Rust mirror above: the field names and the
+                    // projection name of create(), and for every tokenize / split call what Morpheme.surface() returned
+                    model_terms(&mut sink, &dict, s, &mine, &theirs);
                 }
             }
             (Ok(o), _) => {
